@@ -327,7 +327,7 @@ theorem C11_tamper_kid (E : AEAD) {B : Ctx} {rid : Option ReqId} {o : Msg} {opt 
     (hk : u.kid = some k) (hne : k ≠ B.recipientId) :
     unprotect E B rid o = .error .protectionInvalid := by
   apply unprotect_of_recv_error
-  have : idsAcceptable B u = false := by
+  have : idsAcceptable B (isResponse o.code) u = false := by
     simp only [idsAcceptable, hk]
     have : (k == B.recipientId) = false := by simpa using hne
     simp [this]
@@ -342,7 +342,7 @@ theorem C11_tamper_idcontext (E : AEAD) {B : Ctx} {rid : Option ReqId} {o : Msg}
     (hc : u.kidContext = some c) (hne : B.idContext ≠ some c) :
     unprotect E B rid o = .error .protectionInvalid := by
   apply unprotect_of_recv_error
-  have : idsAcceptable B u = false := by
+  have : idsAcceptable B (isResponse o.code) u = false := by
     simp only [idsAcceptable, hc]
     have : (some c == B.idContext) = false := by
       simp only [beq_eq_false_iff_ne, ne_eq]
@@ -543,14 +543,32 @@ theorem unprotect_of_uncompress_none (E : AEAD) {B : Ctx} {rid : Option ReqId} {
   · exact ⟨.protectionInvalid, unprotect_of_recv_error (by simp only [recvParams, h1, h2]; rfl), rfl⟩
   · exact ⟨.decodeError, unprotect_of_recv_error (by simp only [recvParams, h1, h2, hopt, hu]; rfl), rfl⟩
 
+/-- what the two identifier checks leave through -/
+theorem idsAcceptable_inv {B : Ctx} {isResp : Bool} {u : Unprot}
+    (h : idsAcceptable B isResp u = true) :
+    (u.kidContext = none ∨ u.kidContext = B.idContext) ∧
+    ((u.kid = none ∧ isResp = true) ∨ u.kid = some B.recipientId) := by
+  unfold idsAcceptable at h
+  simp only [Bool.and_eq_true] at h
+  obtain ⟨h1, h2⟩ := h
+  constructor
+  · cases hc : u.kidContext with
+    | none => left; rfl
+    | some c => right; rw [hc] at h1; simpa using h1
+  · cases hk : u.kid with
+    | none => left; rw [hk] at h2; exact ⟨rfl, by simpa using h2⟩
+    | some k => right; rw [hk] at h2; simp only [beq_iff_eq] at h2; rw [h2]
+
 /-- **Tampering with the OSCORE option of a response, any bytes.**  Replace the OSCORE option value
 `o` of an honest response by ANY other value `opt'` (bytes appended: `01 05` → `01 05 aa`; `00 aa
 bb` for the empty option; a re-encoded or rewritten field; a single flipped bit).  Then
-unprotection fails with a protection error — unless `opt'` decodes to a header that is *different*
-from the one sent but carries the same Partial IV field, i.e. differs in KID, KID context or group
-flag only; those are judged by `C11_tamper_kid`, `C11_tamper_idcontext` and the group-flag check
-(what remains accepted is adding or removing the recipient's own, redundant KID / KID context,
-which RFC 8613 leaves to the sender). -/
+unprotection fails with a protection error — with ONE stated exception (a restriction of the
+clause, not a defect: RFC 8613 leaves these two fields of a response to the sender — "will not
+typically be present" — and neither is in the AAD): `opt'` decodes to a header that carries the
+Partial IV field that was sent, no group flag, and differs from the header sent only in that the
+recipient's OWN KID and / or KID context are added or removed (`(empty)` → `08 02`, `01 09` →
+`09 09 02`, `(empty)` → `10 01 c7`).  Any other KID or KID context value is refused
+(`C11_tamper_kid`, `C11_tamper_idcontext`). -/
 theorem C11_tamper_response_option (E : AEAD) {S C : Ctx} (hC : C.wf) (hSC : Sends S C)
     {seq : Nat} {m : Msg} {r rc : ReqId} {P : Protected}
     (hk : rc.kid = r.kid) (hp : rc.piv = r.piv) (hrc : rc.wfFor C)
@@ -562,7 +580,9 @@ theorem C11_tamper_response_option (E : AEAD) {S C : Ctx} (hC : C.wf) (hSC : Sen
     (∃ e, unprotect E C (some rc) { P.outer with opts := opts' } = .error e ∧
       e.isProtection = true) ∨
     (∃ u', uncompress opt' = some u' ∧ u' ≠ sentResponseHeader S r seq ∧
-      u'.piv = (sentResponseHeader S r seq).piv) := by
+      u'.piv = (sentResponseHeader S r seq).piv ∧ u'.group = false ∧
+      (u'.kid = none ∨ u'.kid = some C.recipientId) ∧
+      (u'.kidContext = none ∨ u'.kidContext = C.idContext)) := by
   -- the option that was sent decodes to the header that was sent
   have hsent : uncompress o = some (sentResponseHeader S r seq) := by
     obtain ⟨_, _, pt, nonce, o0, _, hmode, hP⟩ := protect_response_shape h
@@ -582,11 +602,25 @@ theorem C11_tamper_response_option (E : AEAD) {S C : Ctx} (hC : C.wf) (hSC : Sen
     exact unprotect_of_uncompress_none E (o := { P.outer with opts := opts' }) hopt hu
   | some u' =>
     by_cases hpiv : u'.piv = (sentResponseHeader S r seq).piv
-    · right
-      refine ⟨u', rfl, ?_, hpiv⟩
-      intro heq
-      rw [heq] at hu
-      exact hne (uncompress_injective hwf' howf hu hsent)
+    · cases hr : recvParams E.tagBytes C (some rc) { P.outer with opts := opts' } with
+      | error e =>
+        left
+        exact ⟨e, unprotect_of_recv_error hr,
+          recvParams_error_isProtection hC (by intro x hx; cases hx; exact hrc) (by simp [hopt]) hr⟩
+      | ok rp =>
+        right
+        obtain ⟨option, u, s, _, hopt2, hu2, hids, _, hg, _⟩ := recvParams_ok_inv hr
+        simp only at hopt2
+        rw [hopt] at hopt2; cases hopt2
+        rw [hu] at hu2; cases hu2
+        obtain ⟨hctx, hkid⟩ := idsAcceptable_inv hids
+        refine ⟨u', rfl, ?_, hpiv, hg, ?_, hctx⟩
+        · intro heq
+          rw [heq] at hu
+          exact hne (uncompress_injective hwf' howf hu hsent)
+        · rcases hkid with ⟨hk, _⟩ | hk
+          · left; exact hk
+          · right; exact hk
     · left
       have := C11_tamper_response_piv_bytes E hC hSC hk hp hrc hdist h opts' opt' hopt P.outer.code
         (by intro u'' hu''; rw [hu] at hu''; cases hu''; exact hpiv)
@@ -642,7 +676,7 @@ theorem C11_outer_code_unauthenticated_request (E : AEAD) (B : Ctx) (o : Msg) (c
     | none => rfl
     | some u =>
       simp only
-      cases hids : idsAcceptable B u with
+      cases hids : idsAcceptable B false u with
       | false => rfl
       | true =>
         simp only [Bool.not_true, Bool.false_eq_true, if_false]
@@ -669,15 +703,19 @@ theorem C11_outer_code_unauthenticated_request (E : AEAD) (B : Ctx) (o : Msg) (c
                   | none => rfl
                   | some inner => rfl
 
-/-- A request whose (redundant) KID and KID context were stripped from the OSCORE option is
-still accepted by the context it is handed to, and yields the same message: absent fields are
-not checked (`unprotected.pop(COSE_KID, self.recipient_id)`), and neither is in the AAD. -/
-theorem C11_request_without_kid_accepted (E : AEAD) {A B : Ctx} (hA : A.wf) (hAB : Sends A B)
+/-- **Stated restriction of the tamper clauses** (not a defect: RFC 8613 leaves the KID context of
+a request to the sender, and it is not part of the AAD).  A request whose KID context was stripped
+from the OSCORE option — the KID kept — is still accepted by the context it is handed to, and
+yields the same message (`unprotected.pop(COSE_KID_CONTEXT, self.id_context)`).  The library's own
+dispatch (`get_oscore_context_for`) would not hand such a request to a context that has an ID
+context; this is about `unprotect` called directly. -/
+theorem C11_request_kid_context_optional (E : AEAD) {A B : Ctx} (hA : A.wf) (hAB : Sends A B)
     {seq : Nat} {m : Msg} {P : Protected} (h : protect E A seq m none = .ok P)
     (opts' : List Opt) (opt' : Bytes) (hopt : findOpt 9 opts' = some opt')
     (hobs : findOpt 6 opts' = findOpt 6 m.opts)
     (hu : uncompress opt' =
-      some { piv := some (shortPiv seq), kid := none, kidContext := none, group := false }) :
+      some { piv := some (shortPiv seq), kid := some A.senderId, kidContext := none,
+             group := false }) :
     unprotect E B none { P.outer with opts := opts' } = unprotect E B none P.outer := by
   obtain ⟨pt, nonce, hpt, hn, hpay, hobs0, hrp⟩ := recv_request (B := B) hA hAB h
   obtain ⟨hreq, hseq, _⟩ := protect_request_shape h
@@ -688,14 +726,14 @@ theorem C11_request_without_kid_accepted (E : AEAD) {A B : Ctx} (hA : A.wf) (hAB
   have hn' : constructNonce B.ivBytes B.commonIv (shortPiv seq) B.recipientId = some nonce := by
     rw [← hAB.iv, ← hAB.civ, ← hAB.id, constructNonce_shortPiv hseq]; exact hn
   have hsel : selectPiv B none P.outer.code
-      { piv := some (shortPiv seq), kid := none, kidContext := none, group := false } =
+      { piv := some (shortPiv seq), kid := some A.senderId, kidContext := none, group := false } =
       .ok { piv := shortPiv seq, gen := B.recipientId, seqno := some (beToNat (shortPiv seq)),
             rid := { kid := B.recipientId, piv := shortPiv seq, canReuse := true,
                      style := P.outer.code } } := by
     simp [selectPiv, hcode]
   have hrp' := recvParams_of_fields (tb := E.tagBytes) (B := B) (rid := none)
     (o := { P.outer with opts := opts' }) (by simpa using hcode0) hopt hu
-    (by simp [idsAcceptable]) hsel rfl hlen hn'
+    (by simp [idsAcceptable, hAB.id]) hsel rfl hlen hn'
   have hd : E.dec B.recipientKey nonce (aad A.algValue A.senderId (shortPiv seq)) P.outer.payload
       = some pt := by rw [hpay, ← hAB.key]; exact E.correct _ _ _ _
   have hd' : E.dec B.recipientKey nonce (aad B.algValue B.recipientId (shortPiv seq))
@@ -703,6 +741,89 @@ theorem C11_request_without_kid_accepted (E : AEAD) {A B : Ctx} (hA : A.wf) (hAB
   rw [unprotect_of_dec_some hrp' hd' (parsePlaintext_buildPlaintext hpt),
     unprotect_of_dec_some hrp hd (parsePlaintext_buildPlaintext hpt)]
   simp [finishUnprotect, hobs, hobs0, hAB.id, beToNat_shortPiv]
+
+/-- **A request without a key ID is refused** (audit F; `C11_request_without_kid_accepted`, which
+witnessed the opposite, is withdrawn).  RFC 8613 section 5: 'kid' SHALL be present in requests.
+Any request — authentic or not, on any context — whose OSCORE option decodes to a header without
+a KID (`09 05 01` → `01 05`, `19 05 01 c7 01` → `11 05 01 c7`) fails with `ProtectionInvalid`
+before any cryptography and before the replay window is consulted. -/
+theorem C11_request_without_kid_rejected (E : AEAD) (B : Ctx) {o : Msg} {opt : Bytes} {u : Unprot}
+    (hopt : findOpt 9 o.opts = some opt) (hu : uncompress opt = some u) (hk : u.kid = none) :
+    unprotect E B none o = .error .protectionInvalid := by
+  by_cases hr : isResponse o.code = true
+  · exact C11_outer_code_unfit_rejected E B none o (Or.inl (by simp [hr]))
+  by_cases hc : o.code = 2 ∨ o.code = 5
+  · apply unprotect_of_recv_error
+    have hr' : isResponse o.code = false := by simpa using hr
+    have hb : (o.code == 2 || o.code == 5) = true := by rcases hc with h | h <;> simp [h]
+    have hids : idsAcceptable B false u = false := by simp [idsAcceptable, hk]
+    simp [recvParams, hr', hb, hopt, hu, hids]
+  · exact C11_outer_code_unfit_rejected E B none o (Or.inr ⟨rfl, hc⟩)
+
+/-- **Tampering with the OSCORE option of a request, any bytes.**  Replace the OSCORE option value
+`o` of an honest request by ANY other value `opt'` (KID removed, KID or KID context rewritten,
+Partial IV changed or re-encoded, bytes appended, a flipped bit) and the outer code by any code.
+Then unprotection fails with a protection error — with ONE stated exception: the sender's context
+has an ID context and `opt'` is the option that was sent without its KID context field
+(`19 05 01 c7 01` → `09 05 01`; see `C11_request_kid_context_optional`). -/
+theorem C11_tamper_request_option (E : AEAD) {A B : Ctx} (hA : A.wf) (hB : B.wf) (hAB : Sends A B)
+    {seq : Nat} {m : Msg} {P : Protected} (h : protect E A seq m none = .ok P)
+    {o : Bytes} (ho : findOpt 9 P.outer.opts = some o) (howf : o.wf)
+    (opts' : List Opt) (opt' : Bytes) (hopt : findOpt 9 opts' = some opt') (hwf' : opt'.wf)
+    (code' : Nat) (hne : opt' ≠ o) :
+    (∃ e, unprotect E B none { P.outer with opts := opts', code := code' } = .error e ∧
+      e.isProtection = true) ∨
+    (A.idContext.isSome = true ∧
+      uncompress opt' = some { reqUnprot A seq with kidContext := none }) := by
+  have hsent : uncompress o = some (reqUnprot A seq) := by
+    obtain ⟨_, hseq, _, pt, nonce, o0, _, _, hc, hP⟩ := protect_request_shape h
+    rw [hP] at ho
+    rw [findOpt_outerOpts_9] at ho
+    cases ho
+    exact uncompress_of_compress (reqUnprot_sendable hA hseq) hc
+  cases hu : uncompress opt' with
+  | none =>
+    left
+    exact unprotect_of_uncompress_none E (o := { P.outer with opts := opts', code := code' }) hopt hu
+  | some u' =>
+    by_cases hpiv : u'.piv = some (shortPiv seq)
+    · cases hr : recvParams E.tagBytes B none { P.outer with opts := opts', code := code' } with
+      | error e =>
+        left
+        exact ⟨e, unprotect_of_recv_error hr,
+          recvParams_error_isProtection hB (by intro x hx; cases hx) (by simp [hopt]) hr⟩
+      | ok rp =>
+        right
+        obtain ⟨option, u, s, hcode, hopt2, hu2, hids, _, hg, _⟩ := recvParams_ok_inv hr
+        simp only at hopt2
+        rw [hopt] at hopt2; cases hopt2
+        rw [hu] at hu2; cases hu2
+        have hresp : isResponse code' = false := by simpa using hcode.symm
+        simp only [hresp] at hids
+        obtain ⟨hctx, hkid⟩ := idsAcceptable_inv hids
+        have hkid' : u'.kid = some A.senderId := by
+          rcases hkid with ⟨_, hf⟩ | hk
+          · cases hf
+          · rw [hk, hAB.id]
+        have hneq : u' ≠ reqUnprot A seq := by
+          intro heq; rw [heq] at hu
+          exact hne (uncompress_injective hwf' howf hu hsent)
+        have hcn : u'.kidContext = none ∧ A.idContext.isSome = true := by
+          rcases hctx with hc | hc
+          · refine ⟨hc, ?_⟩
+            cases hi : A.idContext with
+            | some c => rfl
+            | none =>
+              exfalso; apply hneq
+              cases u'; simp_all
+          · exfalso; apply hneq
+            rw [← hAB.idctx] at hc
+            cases u'; simp_all
+        refine ⟨hcn.2, ?_⟩
+        cases u'; simp_all
+    · left
+      exact C11_tamper_request_piv E hB hAB h opts' opt' hopt code'
+        (by intro u'' hu''; rw [hu] at hu''; cases hu''; exact hpiv)
 
 -- ## Non-vacuity: the hypotheses are satisfiable, and the model computes ------------------------
 
@@ -780,7 +901,9 @@ example :
       some .protectionInvalid := by decide +kernel
 
 /-- manipulated OSCORE options on the concrete request: PIV 301 instead of 300, wrong KID,
-wrong ID context, a lone context-hint flag, a reserved Partial-IV length, the group flag -/
+wrong ID context, a lone context-hint flag, a reserved Partial-IV length, the group flag; the KID
+removed with and without the KID context (`02 01 2c`, `12 01 2c 01 37`: protection errors since the
+audit-F fix); the KID context alone removed (`0a 01 2c 01`: the stated restriction, same message) -/
 example :
     (exProtected.bind fun P => errOf (unprotect transparentAead exB none
       { P.outer with opts := [(9, [26, 1, 45, 1, 55, 1])] })) = some .protectionInvalid ∧
@@ -794,8 +917,14 @@ example :
       { P.outer with opts := [(9, [14, 0, 0, 0, 0, 1, 44, 1])] })) = some .decodeError ∧
     (exProtected.bind fun P => errOf (unprotect transparentAead exB none
       { P.outer with opts := [(9, [58, 1, 44, 1, 55, 1])] })) = some .decodeError ∧
+    (exProtected.bind fun P => errOf (unprotect transparentAead exB none
+      { P.outer with opts := [(6, []), (9, [2, 1, 44])] })) = some .protectionInvalid ∧
+    (exProtected.bind fun P => errOf (unprotect transparentAead exB none
+      { P.outer with opts := [(6, []), (9, [18, 1, 44, 1, 55])] })) = some .protectionInvalid ∧
     (exProtected.bind fun P => okOf (unprotect transparentAead exB none
-      { P.outer with opts := [(6, []), (9, [2, 1, 44])] })).isSome = true := by decide +kernel
+      { P.outer with opts := [(6, []), (9, [10, 1, 44, 1])] })) =
+      (exProtected.bind fun P => okOf (unprotect transparentAead exB none P.outer)) := by
+  decide +kernel
 
 /-- the model reproduces the published values of RFC 8613 appendix C.4 (request, client with
 empty sender id, sequence number 20): external AAD, Encrypt0 AAD, nonce, OSCORE option — and the
